@@ -29,6 +29,11 @@ func runC12(p *Prog, r *Report) {
 	c12R5(p, r, sites)
 	c12R6(p, r, sites)
 	c12R7(p, r)
+	const r8 = "C12-R8"
+	r.Rule(r8, "lock balance in package service: in every function and for every mutex it operates on, Lock/RLock is reached only with the mutex not held by the function, Unlock/RUnlock only with the matching lock held, and the function ends with the mutex released (or releases it in a deferred call) — on every path, including the error paths of the receive loops")
+	nb := lockBalance(p, r, r8, "service", nil)
+	r.Count("lock_operations_checked", nb)
+	r.Floor(r8, 40)
 }
 
 func relayLockStates(fc *FuncCtx) []LockState {
